@@ -94,14 +94,14 @@ Print Assumptions C18_copy.
    error types … *)
 Theorem C18_copy_unreplaced_plain : forall L target c f s j,
     field_stmt L target c false f = GOk s j ->
-    (forall pkg name ms, f_ty f <> TNamed pkg name ms) ->
+    (forall pkg name u ms, f_ty f <> TNamed pkg name u ms) ->
     is_call s = false.
 Proof. exact unreplaced_not_call. Qed.
 Print Assumptions C18_copy_unreplaced_plain.
 
 (* … none for foreign named types that have no DeepCopyAs / DeepCopyIntoAs method (time.Duration, time.Time, …) … *)
-Theorem C18_copy_foreign_named : forall L target c f pkg name ms s j,
-    f_ty f = TNamed pkg name ms ->
+Theorem C18_copy_foreign_named : forall L target c f pkg name u ms s j,
+    f_ty f = TNamed pkg name u ms ->
     bytes_eqb pkg target = false ->
     no_as_methods ms = true ->
     field_stmt L target c false f = GOk s j ->
@@ -110,8 +110,8 @@ Proof. exact foreign_plain_named_assigned. Qed.
 Print Assumptions C18_copy_foreign_named.
 
 (* … and a replaced field of a named type is converted by the replacement's DeepCopyIntoAs *)
-Theorem C18_copy_replaced_named : forall L target c f pkg name ms s j,
-    f_ty f = TNamed pkg name ms ->
+Theorem C18_copy_replaced_named : forall L target c f pkg name u ms s j,
+    f_ty f = TNamed pkg name u ms ->
     field_stmt L target c true f = GOk s j ->
     s = SCallInto (f_name f) dc_into_name.
 Proof. exact replaced_named_into. Qed.
